@@ -624,7 +624,38 @@ def c38(idx: Index, rep: Report, tier: str) -> None:
     rep.require_min(rule5, "validity_patterns", 1)
 
 
-EXTRA3 = {"C38": c38, "C36": c36, "C32": c32, "C33": c33, "C31": c31, "C17": c17, "C25": c25, "C20": c20, "C27": c27, "C28": c28}
+# ------------------------------------------------------------------------------------ C35
+def c35(idx: Index, rep: Report, tier: str) -> None:
+    """Every hidden fluent of the drawn model is written to the deterministic problem, with the drawn value: an
+    iteration over the model that writes nothing (a value skipped as "redundant") leaves the fluent at its declared
+    default, which need not agree with the model."""
+    rule = "C35.4 T2 every-drawn-value-is-written"
+    g = idx.func("model.contingent.execution_environment.SimulatedExecutionEnvironment._randomly_set_full_initial_state")
+    cfg = cfg_of(g)
+    writes = {nd: c for nd, c in cfg_nodes_with_call(cfg, "set_initial_value")}
+    if not writes:
+        raise AnalysisError(f"{rule}: no set_initial_value in _randomly_set_full_initial_state")
+    n = 0
+    for l in cfg.nodes:
+        if l.kind != "for" or not any(nd.ast is not None and any(x is nd.ast for st in l.owner.body for x in ast.walk(st)) for nd in writes):
+            continue
+        n += 1
+        first = [s for s in cfg.g.successors(l) if cfg.g[l][s].get("label") is True or (isinstance(cfg.g[l][s].get("label"), tuple) and True in cfg.g[l][s].get("label"))]
+        w = None
+        for s_ in first:
+            if s_ not in writes:
+                w = w or cfg.path_avoiding(s_, l, set(writes))
+        rep.check(w is None, rule, "each entry of the drawn model is written to the deterministic problem", g.loc(l.owner), construct=f"for {norm(l.owner.target)} in {norm(l.owner.iter)[:40]}: " + ("always writes" if w is None else "an iteration can write nothing"), detail="" if w is None else "a hidden fluent whose drawn value is skipped keeps its declared default (which may be true): the initial state of the environment violates the oneof / or constraints", function=g.qualname, path=path_text(w) if w else None)
+        targets = {x.id for x in ast.walk(l.owner.target) if isinstance(x, ast.Name)}
+        for nd, c in writes.items():
+            if len(c.args) >= 2:
+                dep = any(isinstance(x, ast.Name) and x.id in targets for x in ast.walk(c.args[1]))
+                rep.check(dep, rule, "the written value is the drawn one", g.loc(c), construct=norm(c)[:90], detail="" if dep else "a constant is written instead of the value of the model", function=g.qualname)
+    rep.count("model_loops", n)
+    rep.require_min(rule, "model_loops", 1)
+
+
+EXTRA3 = {"C35": c35, "C38": c38, "C36": c36, "C32": c32, "C33": c33, "C31": c31, "C17": c17, "C25": c25, "C20": c20, "C27": c27, "C28": c28}
 
 
 def run_extra3(prop: str, idx: Index, rep: Report, tier: str) -> None:
